@@ -49,8 +49,13 @@ def problem(cfg, rng, pick=None):
     if lens:
         truth["z"] = rng.uniform(2.0, 4.0)
         truth["lens_angle"] = rng.uniform(0.7, 0.9)
+    # a region cut out of a larger image: the axes do not start at 0; the particle moves with it
+    off = (3.1, 2.7) if cfg.get("origin") == "offset" else (0.0, 0.0)
+    truth["x"] += off[0]
+    truth["y"] += off[1]
     pert = {k: (1.0 if cfg["start"] == "truth" else 1.0 + rng.choice([-1, 1]) * rng.uniform(0.005, 0.02)) for k in truth}
-    box = {"r": (0.3, 0.8), "x": (1.0, 2.2), "y": (1.0, 2.2), "z": (1.5, 9.0), "alpha": (0.5, 1.0), "lens_angle": (0.5, 1.1)}
+    box = {"r": (0.3, 0.8), "x": (1.0 + off[0], 2.2 + off[0]), "y": (1.0 + off[1], 2.2 + off[1]), "z": (1.5, 9.0),
+           "alpha": (0.5, 1.0), "lens_angle": (0.5, 1.1)}
     if cfg["start"] in ("on_lower", "on_upper"):
         # one parameter starts exactly on a bound of its prior, the generating value 1-3 % inside
         k = pick if pick in truth else rng.choice(sorted(truth))
@@ -62,6 +67,7 @@ def problem(cfg, rng, pick=None):
             box[k] = (truth[k] * (1 - d), box[k][1])
             pert[k] = 1 - 2 * d
     det = hp.detector_grid(16, 0.2)
+    det = det.assign_coords(x=det.x.values + off[0], y=det.y.values + off[1])
     th_true = MieLens(lens_angle=truth["lens_angle"]) if lens else Mie()
     data = calc_holo(det, Sphere(n=1.59, r=truth["r"], center=(truth["x"], truth["y"], truth["z"])),
                      scaling=truth["alpha"], theory=th_true, **KW)
@@ -86,7 +92,7 @@ def fit_event(cfg, model, data, strat, want, first=None):
         warnings.simplefilter("ignore")
         res = strat.fit(model, data)
     pars = res.parameters
-    ev = {"event": "Fit", "cfg": "%(strategy)s/%(data)s/%(start)s/%(theory)s" % cfg}
+    ev = {"event": "Fit", "cfg": "%(strategy)s/%(data)s/%(start)s/%(theory)s/%(origin)s" % cfg}
     ev["names_ok"] = bool(list(pars) == list(model.parameters))
     ev["mb_param_error"] = quant.mb(max(abs(float(pars[k]) - want[k]) / abs(want[k]) for k in want)) \
         if ev["names_ok"] else 20000
@@ -128,7 +134,7 @@ def clone(res):
 
 
 def reload_event(cfg, snap, loaded, model):
-    ev = {"event": "Reload", "cfg": "%(strategy)s/%(data)s/%(start)s/%(theory)s" % cfg}
+    ev = {"event": "Reload", "cfg": "%(strategy)s/%(data)s/%(start)s/%(theory)s/%(origin)s" % cfg}
     ev["names_equal"] = bool(list(loaded.parameters) == list(snap.parameters))
     ev["params_equal"] = bool(ev["names_equal"] and all(float(loaded.parameters[k]) == float(snap.parameters[k])
                                                         for k in snap.parameters))
@@ -361,7 +367,7 @@ def run(ctx):
     quick = ctx.tier == "quick"
     rng = random.Random(ctx.seed)
     tmp = tempfile.mkdtemp(prefix="c13_")
-    ctx.rule = ("TLC enumerates 32 configurations (nmpfit/scipy x full/subset x start at truth/nearby/on a lower/on "
+    ctx.rule = ("TLC enumerates 64 configurations (x image axes starting at 0 / offset) (nmpfit/scipy x full/subset x start at truth/nearby/on a lower/on "
                 "an upper bound of one parameter's prior x Mie/"
                 "MieLens with fitted lens angle) and every interleaving of fit, three cache reads, save, load and "
                 "a second fit up to MaxSteps; every edge of the graph is executed on real objects; distinct = "
@@ -376,7 +382,9 @@ def run(ctx):
         if quick:
             # half of the configurations, every (strategy, start) with two of the four (data, theory) pairs
             def keep(c):
-                return ((c["data"] == "subset") + (c["theory"] != "mie") + ctx.seed) % 2 == 0
+                starts = ["truth", "nearby", "on_lower", "on_upper"]
+                return ((c["data"] == "subset") + (c["theory"] != "mie") + ctx.seed) % 2 == 0 and \
+                    ((c["origin"] == "offset") + (c["strategy"] == "scipy") + starts.index(c["start"]) + ctx.seed // 2) % 2 == 0
             inits = [s for s in inits if keep(g.states[s]["cfg"])]
         nfile = 0
         for sid in inits:
